@@ -16,7 +16,7 @@ _COMMON_ASSUMPTIONS = [
 BUDGETS = {
     "C01": {"quick": {"procs": 32, "runs": 30}, "thorough": {"procs": 256, "runs": 1000}},
     "C02": {"quick": {"procs": 32, "runs": 14}, "thorough": {"procs": 256, "runs": 360}},
-    "C03": {"quick": {"procs": 32, "runs": 20}, "thorough": {"procs": 256, "runs": 480}},
+    "C03": {"quick": {"procs": 32, "runs": 40}, "thorough": {"procs": 256, "runs": 480}},
     "C04": {"quick": {"procs": 32, "runs": 100}, "thorough": {"procs": 256, "runs": 1200}},
     "C06": {"quick": {"procs": 32, "runs": 10}, "thorough": {"procs": 192, "runs": 240}},
     "C07": {"quick": {"procs": 32, "runs": 25, "common": 8}, "thorough": {"procs": 192, "runs": 150, "common": 12}},
